@@ -409,7 +409,7 @@ impl Model for LiveModel {
                     return false;
                 }
                 let d = &sys.d;
-                sys.rt.block_on(async {
+                let handled = sys.rt.block_on(async {
                     let ctx = {
                         let g = d.global.read().await;
                         g.peers.get(&peer_ip()).map(|p| p.context.clone())
@@ -418,9 +418,14 @@ impl Model for LiveModel {
                         // the path real expiry takes: the timer task's oneshot fires
                         ctx.lock().unwrap().fire_gr_timer();
                         let c2 = ctx.clone();
-                        settle(|| crate::gr::verif_gr::gr_kind(&c2.lock().unwrap().gr_state) != "PeerRestarting", "GR timer handler ran").await;
+                        settled(|| crate::gr::verif_gr::gr_kind(&c2.lock().unwrap().gr_state) != "PeerRestarting").await
+                    } else {
+                        true
                     }
                 });
+                if !handled {
+                    cur.push(("C10/timer-fired-but-not-handled/restart".into(), format!("{}: the restart timer's explicit fire (what expiry / force_down sends to the timer task) was not acted upon: GrState did not leave PeerRestarting", op_name(o))));
+                }
             }
             Op::FireLlgrTimer(f) => {
                 let Some(pc) = &pre_ctx else { return false };
@@ -429,7 +434,7 @@ impl Model for LiveModel {
                 }
                 let d = &sys.d;
                 let fam = *f;
-                sys.rt.block_on(async {
+                let handled = sys.rt.block_on(async {
                     let ctx = {
                         let g = d.global.read().await;
                         g.peers.get(&peer_ip()).map(|p| p.context.clone())
@@ -440,9 +445,14 @@ impl Model for LiveModel {
                             let _ = tx.send(());
                         }
                         let c2 = ctx.clone();
-                        settle(|| crate::gr::verif_gr::fp_gr(&c2.lock().unwrap().gr_state) != before, "LLGR timer handler ran").await;
+                        settled(|| crate::gr::verif_gr::fp_gr(&c2.lock().unwrap().gr_state) != before).await
+                    } else {
+                        true
                     }
                 });
+                if !handled {
+                    cur.push(("C10/timer-fired-but-not-handled/llgr".into(), format!("{}: the LLGR timer's explicit fire (what expiry / force_down sends to the timer task) was not acted upon: the GR state did not change, the LLGR-stale routes stay with no timer left", op_name(o))));
+                }
             }
             Op::Disable => {
                 if sys.admin_down {
